@@ -9,6 +9,8 @@ def run(tier, seed, verdict):
     runs = [mr.ModelRun("MC_C19_quick.cfg" if quick else "MC_C19.cfg", seed, probes=("reopen", "stamps"),
                         name_pools=[0, 2], stride=3 if quick else 6),
             mr.ModelRun("MC_C19_links_q1.cfg" if quick else "MC_C19_links.cfg", seed + 1, probes=("stamps",), name_pools=[0], stride=1),
+            mr.ModelRun("MC_C19_fault_q1.cfg", seed + 3, probes=("stamps",), name_pools=[0], stride=1,
+                        accept=lambda tx: tx["act"]["out"] != "ok"),
             mr.ModelRun("MC_Sim.cfg", seed + 2, probes=(), name_pools=[0, 1], simulate="num=%d" % (15 if quick else 300), depth=30)]
     level, cov, assumptions = run_property(
         "C19", verdict, runs, require_actions=("Tick:ok", "ToggleAuto:ok", "Force:ok", "SetAttr:ok"),
